@@ -189,6 +189,14 @@ func (c *ConstantStruct) Link(scope Scope, t TypeSpec) (ConstantValue, error) {
 		return nil, constantValueCastError{Value: c, Type: t}
 	}
 
+	// The literal is cast into a struct of its own: the same literal may be
+	// cast to other types through references to the constant that holds it.
+	fields := make(map[string]ConstantValue, len(c.Fields))
+	for name, value := range c.Fields {
+		fields[name] = value
+	}
+	c = &ConstantStruct{Fields: fields}
+
 	for _, field := range s.Fields {
 		if s.linkScope != nil && !field.linkingDefault {
 			// The struct is still being linked (it was reached through a
